@@ -1,0 +1,8 @@
+//go:build verif
+
+package ringhash
+
+// Contracts for the verification machinery in /verif (comment-only; build tag verif).
+
+// The ring's hash function is a pure function of its argument (crc32 by default).
+//@ purefunc Ring.hashfunc
